@@ -230,10 +230,16 @@ pub fn restore(fragment: &Fragment, prj: StrId) -> Result<(), FragmentError> {
     let definition_base = definition_table::reserve_definition_ids(fragment.definition_count);
 
     // The window's single text ID (local 0) rebases to `text_base + 1`.
+    // `Parser::parse` registers a newline-terminated copy of the input, so
+    // register the same text here: diagnostics embed it as their source.
+    let mut source_text = fragment.source_text.clone();
+    if !source_text.ends_with('\n') {
+        source_text.push('\n');
+    }
     text_table::insert_with_id(
         TextId(text_base + 1),
         TextInfo {
-            text: fragment.source_text.clone(),
+            text: source_text,
             path: path_id,
         },
     );
